@@ -261,7 +261,8 @@ vh::Outcome run_locks(const vh::Case& c, Prop prop) {
                     } else if (kind == O_STORE) {
                         if constexpr (loadstore) { Tracked nv(bit); w.store(nv); }
                     } else if (kind == O_ASSIGN) {
-                        if constexpr (loadstore) { Tracked nv(bit); w = nv; }
+                        if constexpr (ordered) { if (op.a & 4) { w = w2; } else { Tracked nv(bit); w = nv; } }      // also from another wrapper of the same type (its value goes through the conversion operator)
+                        else if constexpr (loadstore) { Tracked nv(bit); w = nv; }
                     } else if (kind == O_CAST) {
                         // (guarded / guarded_opt declare `operator T() const` too, but it locks a non-mutable mutex and cannot be instantiated)
                         if constexpr (ordered) { Tracked v = static_cast<Tracked>(w); (void)v; }
